@@ -3,6 +3,7 @@
 //! canonicalised output) for the Lean driver.  See /verif/DESIGN.md section 5.
 mod c06;
 mod c07;
+mod c13;
 mod c16;
 mod c17;
 mod c18;
@@ -123,6 +124,7 @@ fn main() {
         match prop.as_str() {
             "C06" => c06::replay(&prop, &line, &mut out),
             "C07" | "C08" => c07::replay(&prop, &line, &mut out),
+            "C13" => c13::replay(&line, &mut out),
             "C16" => c16::replay(&line, &mut out),
             "C17" => c17::replay(&line, &mut out),
             "C18" => c18::replay(&line, &mut out),
@@ -142,6 +144,7 @@ fn main() {
     match prop.as_str() {
         "C06" => c06::run(&prop, &opts, &mut out),
         "C07" | "C08" => c07::run(&prop, &opts, &mut out),
+        "C13" => c13::run(&opts, &mut out),
         "C16" => c16::run(&opts, &mut out),
         "C17" => c17::run(&opts, &mut out),
         "C18" => c18::run(&opts, &mut out),
